@@ -283,7 +283,8 @@ def model_outputs(cls, desc, M, rs, solver_kwargs=None, solver="randomized"):
         r = xe.single.EOFRotator(n_modes=max(2, k)).fit(m)
         return [npy(r.data["components"]), npy(r.data["scores"])]
     if cls == "ExtendedEOF":
-        m = xe.single.ExtendedEOF(n_modes=k, tau=1, embedding=2, solver=solver, random_state=rs, **kw).fit(X, "time")
+        m = xe.single.ExtendedEOF(n_modes=k, tau=1, embedding=2, n_pca_modes=(2 if desc["seed"] % 2 and min(n, p) >= 3 else None), solver=solver,
+                                  random_state=rs, **kw).fit(X, "time")
         return [npy(m.data["components"]), npy(m.data["scores"])]
     if cls == "OPA":
         m = xe.single.OPA(n_modes=1, tau_max=2, n_pca_modes=max(2, k), solver=solver, random_state=rs, **kw).fit(X, "time")
@@ -308,7 +309,7 @@ def model_outputs(cls, desc, M, rs, solver_kwargs=None, solver="randomized"):
     raise ValueError(cls)
 
 
-NEED_FULL_RANK = ("OPA", "POP", "CPCCA", "MCA", "CCA")
+NEED_FULL_RANK = ("OPA", "POP", "CPCCA", "MCA", "CCA", "EOFRotator")  # (rotating numerically null modes is ill-defined)
 
 
 def run_seed(desc, ctx):
